@@ -147,6 +147,10 @@ func (g *gen) attr(depth int, elem string) Attr {
 	if depth <= 0 && k == 7 {
 		k = 0
 	}
+	return g.attrKind(k, depth, elem)
+}
+
+func (g *gen) attrKind(k, depth int, elem string) Attr {
 	switch k {
 	case 0, 1, 2:
 		cv := rapid.SampledFrom(constVals).Draw(g.t, "cv")
@@ -173,6 +177,18 @@ func (g *gen) attr(depth int, elem string) Attr {
 			for i, n := 0, rapid.IntRange(1, 2).Draw(g.t, "nelse"); i < n; i++ {
 				a.Else = append(a.Else, g.attr(depth-1, elem))
 			}
+		}
+		if depth >= 2 && rapid.IntRange(0, 2).Draw(g.t, "elseif") == 0 {
+			// how "else if" is spelled for attributes: a conditional attribute nested in the else
+			// branch, here around a class expression (which the generator rewrites before use)
+			c2 := g.boolExpr(0)
+			inner := Attr{Kind: "cond", Cond: &c2, Then: []Attr{g.attrKind(8, 0, elem)}}
+			if rapid.Bool().Draw(g.t, "elseifElse") {
+				inner.HasElse = true
+				inner.Else = []Attr{g.attrKind(rapid.SampledFrom([]int{0, 4, 8}).Draw(g.t, "elseifElseKind"), 0, elem)}
+			}
+			a.HasElse = true
+			a.Else = append(a.Else, inner)
 		}
 		return a
 	case 8:
@@ -325,7 +341,7 @@ func (g *gen) node(depth int) Node {
 		n.Void = true
 		n.Name = rapid.SampledFrom(voidNames).Draw(g.t, "void")
 		for i, m := 0, rapid.IntRange(0, 2).Draw(g.t, "nattrs"); i < m; i++ {
-			n.Attrs = append(n.Attrs, g.attr(1, n.Name))
+			n.Attrs = append(n.Attrs, g.attr(2, n.Name))
 		}
 		n.Attrs = dedupAttrs(n.Attrs)
 	case 7:
@@ -346,7 +362,7 @@ func (g *gen) node(depth int) Node {
 			n.Name = rapid.SampledFrom(blockNames).Draw(g.t, "bname")
 		}
 		for i, m := 0, rapid.IntRange(0, 3).Draw(g.t, "nattrs"); i < m; i++ {
-			n.Attrs = append(n.Attrs, g.attr(1, n.Name))
+			n.Attrs = append(n.Attrs, g.attr(2, n.Name))
 		}
 		n.Attrs = dedupAttrs(n.Attrs)
 		n.Kids = g.nodes(depth-1, 4)
